@@ -56,6 +56,7 @@ func main() {
 	replay := flag.String("replay", "", "replay file to re-execute against the current tree")
 	selftest := flag.Bool("selftest", false, "determinism self-test only")
 	warm := flag.Bool("warm", false, "only build everything once (warms the Go build cache)")
+	modeltest := flag.Bool("modeltest", false, "test the simulator's concurrency model on the synthetic library only")
 	seedFlag := flag.String("seed", "", "seed (default: $VERIF_SEED or 1)")
 	procs := flag.Int("procs", 0, "override: sim processes per build")
 	runs := flag.Int("runs", 0, "override: runs per process")
@@ -125,7 +126,16 @@ func main() {
 	code := 0
 	switch {
 	case *warm:
+		modelTestBuildOnly()
 		logf("build cache warmed")
+	case *modeltest:
+		mt := modelTest()
+		if !mt.ok {
+			fmt.Printf("MODELTEST FAILED: %s\n", mt.detail)
+			code = 2
+		} else {
+			fmt.Println("MODELTEST OK")
+		}
 	case *replay != "":
 		code = doReplay(b, *replay)
 	case *selftest:
